@@ -167,8 +167,8 @@ def _hashable(o):
 
 def ref_eval(dsk, key, dict_elementwise=True, tuple_elementwise=False):
     """Legacy semantics. Statement: calls, lists and dicts elementwise, hashable values equal to a key are references
-    (dict_elementwise=True, tuple_elementwise=False).  The real conversion corresponds to (True, True)
-    (before the fix ca6daad: (False, True))."""
+    (dict_elementwise=True, tuple_elementwise=False).  The real conversion corresponds to the same flags since the
+    fixes ca6daad (dicts) and 83e63e1 (tuples); before them to (False, True)."""
     keys = set(dsk)
     memo = {}
     active = set()
